@@ -197,3 +197,23 @@ PROPS["C01"] = dict(
     ],
     harnesses=e4_harnesses(),
 )
+
+F_LOOP = ["rustemo/src/lr/parser.rs: body of the `loop` of LRParser::parse_with_context (sliced verbatim), ParseStack::{push_state, pop_states, state}, LRParser::next_token (whole file re-hosted byte for byte with Vec -> fixed-capacity stand-in, Position/SourceSpan -> offset-only stand-ins)",
+          "rustemo/src/lr/context.rs: LRContext (re-hosted)", "rustemo/src/lexer.rs: Lexer trait, Token (re-hosted)"]
+
+
+def steph(name, what, tiers=Q, **kw):
+    return h("e4", "lr::parser::step::" + name, what,
+             "parse stack of K items (K concrete per harness) with arbitrary states and ordered spans, arbitrary lookahead/position/layout, symbolic action (Shift/Reduce(len<K)/Accept/Error) and GOTO answer, unwind 10",
+             F_LOOP, tiers=tiers, timeout=1500, mem_gb=10, cost=3, extra=NOMEM, **kw)
+
+
+STEP = [
+    steph("step_1", "one LR step from a 1-item stack = textbook step"),
+    steph("step_2", "one LR step from a 2-item stack = textbook step"),
+    steph("step_3", "one LR step from a 3-item stack = textbook step"),
+    steph("step_4", "one LR step from a 4-item stack = textbook step", tiers=T),
+    steph("step_2_empty_cell", "empty action cell (unexpected token kind from a custom lexer) -> Err, no panic"),
+    steph("step_twin_must_fail", "vacuity twin (must FAIL)", expect_fail=True),
+]
+PROPS["STEP"] = dict(level="other", explanation="LR step harnesses (development only)", harnesses=STEP)
